@@ -69,14 +69,16 @@ def gen(seed, tier):
         if pop == "adopting":
             # adoptions in flight while the stop arrives: a second thread submits them around the same time
             adopters = [{"id": "a%d" % ph, "script": [["wait-running"]] + ([["sleep", tsd]] if (tsd and not second) else []) + [x for pid in ids for x in (["adopt", pid], ["sleep", rng.choice([0.0, 0.0, 0.01])])]}]
-        end = rng.choice(["shutdown", "shutdown", "shutdown-payload", "sigint", "fail", "fail-then-shutdown"])
+        end = rng.choice(["shutdown", "shutdown", "shutdown-payload", "shutdown-payload", "sigint", "fail", "fail-then-shutdown"])
         script.append(["mark", "trigger%d" % ph])
         if end == "shutdown":
             script.append(["shutdown"])
         elif end == "sigint":
             script.append(["sigint"])
         elif end == "shutdown-payload":
-            payloads.append({"id": "sd%d" % ph, "flavour": "threading", "phase": ph, "via": "adopt", "steps": [["shutdown"]]})
+            sfl = rng.choice(["threading", "threading", "asyncio", "trio"])
+            # from a thread payload directly, or from a coroutine payload through a worker thread of its framework
+            payloads.append({"id": "sd%d" % ph, "flavour": sfl, "phase": ph, "via": "adopt", "steps": [["shutdown"]] if sfl == "threading" else [["shutdown-in-thread"], ["block"]]})
             script.append(["adopt", "sd%d" % ph])
         else:
             payloads.append({"id": "fail%d" % ph, "flavour": rng.choice(FL), "phase": ph, "via": "adopt", "steps": [rng.choice([["raise", "LookupError"], ["return", "0"]])], "fails": True})
